@@ -229,6 +229,18 @@ def run_case(case):
             out[j_] = JUNK_ANNOTATIONS[j_]
         return out
 
+    def make_cls(name_, bases_, ann_, **kw_):
+        """The class; in a quarter of the cases its annotations are completed after the class statement, the way a class
+        decorator (or a loop following the class body) adds fields - before the first instance exists."""
+        items_ = list(ann_.items())
+        if len(items_) >= 2 and junk_rng.random() < 0.25:
+            k_ = junk_rng.randrange(0, len(items_))
+            c_ = type(name_, bases_, {"__annotations__": dict(items_[:k_])}, **kw_)
+            c_.__annotations__.update(items_[k_:])
+            mon.count("annotations_completed_after_the_class_statement")
+            return c_
+        return type(name_, bases_, {"__annotations__": ann_}, **kw_)
+
     leaves = flatten(tree)
     incompatible = [p for p, (_l, act, _s) in leaves
                     if any(ch not in access for ch in ACTIONS[act][0] if ch in "rw")]
@@ -262,21 +274,21 @@ def run_case(case):
                 control = shape_of(d0())            # subclass instantiated without its base ever being instantiated
                 base, cls = hierarchy()
                 base()
-                cls = type("AnnDerived", (base,), {"__annotations__": annots(fields)})
+                cls = make_cls("AnnDerived", (base,), annots(fields))
                 reg = cls()
                 order_dependent = shape_of(reg) != control
                 inherits = len(control) != len(leaves)
             elif x_ < 0.4:
-                cls = type("AnnReg", (csr.Register,), {"__annotations__": annots(fields)}, access=access)
+                cls = make_cls("AnnReg", (csr.Register,), annots(fields), access=access)
                 reg = cls()
             elif x_ < 0.5:
                 # a subclass that declares no fields of its own (only a helper method) has its parent's fields
-                base_ = type("AnnReg", (csr.Register,), {"__annotations__": annots(fields)}, access=access)
+                base_ = make_cls("AnnReg", (csr.Register,), annots(fields), access=access)
                 cls = type("AnnChild", (base_,), {"__doc__": "same fields, one more method", "helper": lambda self: 1})
                 reg = cls()
             else:
                 # access given per instance: the same class is instantiated several times
-                cls = type("AnnReg", (csr.Register,), {"__annotations__": annots(fields)})
+                cls = make_cls("AnnReg", (csr.Register,), annots(fields))
                 reg = cls(access=access)
                 reinst = []
                 for other in ("r", "w", "rw"):
